@@ -358,8 +358,10 @@ CLAIMED['C06'] = dict(
              "statement on the implementation (passes within [1, iterations]; early stop => every cell of the "
              "cone moved by at most the tolerance and lies within q/(1-q)*tolerance of the exact fixed point "
              "from rational Gaussian elimination; acyclic => equals a fresh non-iterative compiler). Implementation "
-             "findings it exhibits: first use / late-built cells answer with the constructed value, range nodes "
-             "are cached forever, the 1e-5 slack of close_enough.",
+             "findings it exhibits, all registered as known findings (C06-construction-counts-as-computed, "
+             "C06-range-cached-forever, C06-tolerance-slack): first use / late-built cells answer with the "
+             "constructed value, range nodes are cached forever, the 1e-5 slack of close_enough. The model "
+             "follows /repo fixes 761df50 (set_value type clause) and 4ad9eb7 (namespace defaults).",
         design_ref="DESIGN.md 5 C06",
     )
 
@@ -388,7 +390,7 @@ CLAIMED['C07'] = dict(
              "3-attribute namespace did fail). REFUTED (advisory extra target Refuted/C07_shared.v): "
              "C07_shared_refuted - with ONE namespace for all threads two iterative evaluations with different "
              "settings disturb each other (1 pass instead of 12), i.e. the theorem rests on threading.local. "
-             "CORRESPONDENCE: every quick run enumerates ~700 schedules on real threads (workload B runs to "
+             "CORRESPONDENCE: every quick run enumerates ~2500 schedules on real threads (workload B runs to "
              "completion or to its own k-th _evaluate entry inside the j-th entry of workload A; workloads: "
              "iterative contracting circular systems, plain acyclic workbooks, a CSE array formula; fresh and "
              "warmed-up threads): result, pass count, number of _evaluate entries, final cells and the context "
@@ -399,7 +401,8 @@ CLAIMED['C07'] = dict(
              "threading.local namespaces with the modelled attributes, the two singletons, and as run-time-mutated "
              "objects only _Cell.ctr and star_args; any new entry breaks the tie. NOT covered by the model and "
              "found by the harness: apply_meta's excel_func_meta['name_space'] back-pointer lets CELL/INDEX over "
-             "references read another compiler's cells (finding C07-func-meta-name-space).",
+             "references read another compiler's cells (known finding C07-func-meta-name-space, exhibited on two "
+             "real threads by every run).",
         design_ref="DESIGN.md 5 C07",
     )
 
